@@ -261,8 +261,12 @@ func (*MapSet).Values
   ensures nil_values: set == nil ==> isnil(values)
   ensures only_members: set != nil ==> (forall k in 0..len(values): haskey(set.m, values[k]))
   ensures all_members: set != nil && !isnil(set.m) ==> (forall x: haskey(set.m, x) ==> memberOf(values, x))
+  ensures no_duplicates: set != nil ==> (forall k in 0..len(values): forall j in k + 1..len(values): values[k] != values[j])
+  using distinct_so_far, own_slice
   loop 0
-    invariant set != nil && !isnil(values) && fresh(values)
-    invariant forall k in 0..len(values): haskey(set.m, values[k]) && visited(values[k])
-    invariant forall x: visited(x) ==> memberOf(values, x)
+    invariant own_slice: set != nil && !isnil(values) && fresh(values)
+    invariant listed_are_visited: forall k in 0..len(values): haskey(set.m, values[k]) && visited(values[k])
+    invariant visited_are_listed: forall x: visited(x) ==> memberOf(values, x)
+    invariant distinct_so_far: forall k in 0..len(values): forall j in k + 1..len(values): values[k] != values[j]
+    using own_slice, listed_are_visited, distinct_so_far, frame
 @*/
